@@ -340,6 +340,7 @@ def header_histories(h, m, schema, workdir):
 
 
 K_MANY_DELETED = "ws:more-than-maxErrorCount-deleted-entries"
+K_LONG_COMMENT = "ws:comment-above-8192"
 
 
 def many_deleted(ctx, h, schema, workdir, n):
@@ -412,6 +413,21 @@ def run(ctx):
                 e = header_histories(h, m, s, wd)
                 if e:
                     ctx.broken.append(("correspondence header id model vs STEPfile header instances", e))
+                # ReadComment's limit (Generated.maxCommentLength = 8192): the comment theorems carry `CommentBound`; at the bound the
+                # round trip must work, one character above it the record behind the comment is lost (recorded class, C10's root cause)
+                t0 = s.targets[0].upper()
+                for nlen in (8192, 8193):
+                    lp = [G.Inst(1, [(t0, [("tok", "1"), ("null",), ("null",)])]),
+                          G.Inst(2, [(t0, [("tok", "2"), ("null",), ("null",)])], comment="/*" + "c" * nlen + "*/")]
+                    r = run_case(ctx, h, m, s, lp, [], ["completeSE", "completeSE"], 0, wd, "lc", wc=1)
+                    ctx.hist("instance comment length", str(nlen))
+                    if r and r[0] == "property":
+                        ctx.violation(K_LONG_COMMENT if nlen > 8192 else "ws:comment-at-8192", r[1],
+                                      {"schema_express": s.express(), "schema_name": s.name, "strict": 0, "states": ["completeSE", "completeSE"],
+                                       "file": G.render(s.name, lp), "writeComments": 1, "header": None, "start": "exchange",
+                                       "how": "exp2cxx the schema, link harness/h_p21.cc; reset 0; read FILE; writework W 1; readwork W; dump"})
+                    elif r and nlen <= 8192:
+                        ctx.broken.append(("correspondence Session model vs STEPfile working-session read/write", "comment of 8192 characters: " + r[1]))
                 # around STEPfile::_maxErrorCount (100000): every skipped `D` entry is counted as a record that yielded no instance
                 for nd in (99999, 100000, 100001):
                     e = many_deleted(ctx, h, s, wd, nd)
